@@ -65,6 +65,7 @@ SHAPED = [
     "x = (1\ny = 2)\nz = [3\n", "a 42\nb 43\nc 44\n", "if x\n    y = 1\nelse\n    y = 2\n", "for i in :\n    pass\nwhile :\n    pass\n",
     "x = 1 +\ny = 2 *\nz = 3\n", "class :\n    def (self):\n        return\n", "print(é é)\nprint(ü ü)\n", "§\nx = 1\n§§\n",
     "x = 'é' 'a' = é é\ny = )\n", "def f():\n    return (\n\ndef g():\n    return ]\n", "a = {1: 2, 3\nb = {4\n", "lambda : :\n",
+    "if a::\n    b)\n", "x = ''}\n+\n", "def f():\n    return\n    ]\n)\n", "(*a b, ''\nx = 1\n", "[*a b, ''", "a = 1 )) ]] }}\n", "f(a b c d)\n", "x = 1 2 3 ) ) )\n",
     "import\nfrom import x\nimport a.\n", "x = [1, 2, 3\n", "\n\n  )\n", "f(a)(b)(\n", "@\ndef f(): pass\n", "x = 1 if else 2\ny = 3 if 4 else\n",
 ]
 
